@@ -213,24 +213,43 @@ func TestVerif_C02_Random(t *testing.T) {
 	vacct.RapidCheck(t, vacct.N(60, 15000), func(rt *rapid.T) {
 		W := rapid.SampledFrom([]int{100, 100, 7}).Draw(rt, "window")
 		nS := rapid.IntRange(1, 2).Draw(rt, "senders")
-		R := vNewDev("R", W, 8)
-		g, _, _ := protocoltypes.NewGroupMultiMember()
-		_ = R.s.PutGroup(vctx, g)
+		// either independent sender devices on one multi-member group, or ONE sender device known on two groups
+		// (account group and a one-to-one group of a multi-device account; the receiver is the sibling device)
+		sameDevice := rapid.IntRange(0, 3).Draw(rt, "sameDevice") == 0
 		type sender struct {
 			snd   *c02Sender
 			model *ratchetModel
 			n     int
+			g     *protocoltypes.Group
 		}
 		var senders []*sender
 		maxN := 300
 		if W == 7 {
 			maxN = 40
 		}
-		for i := 0; i < nS; i++ {
-			S := vNewDev(fmt.Sprintf("S%d", i), W, 8)
-			_ = S.s.PutGroup(vctx, g)
-			n := rapid.IntRange(1, maxN).Draw(rt, "n")
-			senders = append(senders, &sender{snd: c02Setup(g, S, R, n), model: &ratchetModel{W: W, opened: map[uint64]bool{}}, n: n})
+		var R *vDev
+		if sameDevice {
+			nS = 2
+			S := vNewDev("S0", W, 8)
+			R = vSecondDevice("R", S, W, 8)
+			ga, _, _ := S.s.GetGroupForAccount()
+			gc, _ := S.s.GetGroupForContact(vNewDev("C", 4, 4).account())
+			for _, g := range []*protocoltypes.Group{ga, gc} {
+				_ = R.s.PutGroup(vctx, g)
+				_ = S.s.PutGroup(vctx, g)
+				n := rapid.IntRange(1, min(maxN, 60)).Draw(rt, "n")
+				senders = append(senders, &sender{snd: c02Setup(g, S, R, n), model: &ratchetModel{W: W, opened: map[uint64]bool{}}, n: n, g: g})
+			}
+		} else {
+			R = vNewDev("R", W, 8)
+			g, _, _ := protocoltypes.NewGroupMultiMember()
+			_ = R.s.PutGroup(vctx, g)
+			for i := 0; i < nS; i++ {
+				S := vNewDev(fmt.Sprintf("S%d", i), W, 8)
+				_ = S.s.PutGroup(vctx, g)
+				n := rapid.IntRange(1, maxN).Draw(rt, "n")
+				senders = append(senders, &sender{snd: c02Setup(g, S, R, n), model: &ratchetModel{W: W, opened: map[uint64]bool{}}, n: n, g: g})
+			}
 		}
 		var hist []string
 		fail := func(id, f string, a ...any) {
@@ -250,7 +269,7 @@ func TestVerif_C02_Random(t *testing.T) {
 				dup = true
 			}
 			env := s.snd.envs[k-1]
-			o, err := vOpen(R, g, env, vCID(env))
+			o, err := vOpen(R, s.g, env, vCID(env))
 			hist = append(hist, fmt.Sprintf("s%d:m%d=%v", si, k, err == nil))
 			if want && err != nil {
 				fail("openable-rejected", "sender %d message %d must open (registered at %d, window %d, %d opened) but failed: %v", si, k, m.c, W, len(m.opened), err)
@@ -275,7 +294,7 @@ func TestVerif_C02_Random(t *testing.T) {
 		}
 		register := func(si int, j uint64) {
 			s := senders[si]
-			if err := R.s.RegisterChainKey(vctx, g, s.snd.dev.md(g).Device(), s.snd.anns[j]); err != nil {
+			if err := R.s.RegisterChainKey(vctx, s.g, s.snd.dev.md(s.g).Device(), s.snd.anns[j]); err != nil {
 				fail("register-error", "RegisterChainKey(sender %d announcement@%d): %v", si, j, err)
 			}
 			hist = append(hist, fmt.Sprintf("s%d:reg@%d", si, j))
@@ -305,7 +324,7 @@ func TestVerif_C02_Random(t *testing.T) {
 			case 10: // the next messages also arrive outside the store first (push); what the push path answers is C14's
 				// subject, here it must simply not disturb the store path
 				for k := cursor[si] + 1; k <= cursor[si]+uint64(rapid.IntRange(1, 3).Draw(rt, "pushes")) && k <= uint64(s.n); k++ {
-					_, _, _, _, err := R.s.OpenOutOfStoreMessage(vctx, c14Push(s.snd.dev, g, s.snd.envs[k-1]))
+					_, _, _, _, err := R.s.OpenOutOfStoreMessage(vctx, c14Push(s.snd.dev, s.g, s.snd.envs[k-1]))
 					hist = append(hist, fmt.Sprintf("s%d:push%d=%v", si, k, err == nil))
 					if err == nil && !s.model.opened[k] {
 						pushFirst = true
@@ -366,6 +385,6 @@ func TestVerif_C02_Random(t *testing.T) {
 		nt := edge && dup && ooo
 		acct.Case(nt, fmt.Sprintf("W%d|%s", W, strings.Join(hist, ",")), func() any {
 			return map[string]any{"kind": "random", "window": W, "senders": nS, "history": hist}
-		}, "random", lbl(edge, "random/edge-attempt"), lbl(dup, "random/duplicate"), lbl(ooo, "random/out-of-order-success"), lbl(rereg, "random/re-registration"), lbl(nS > 1, "random/two-senders"), lbl(pushFirst, "random/push-before-store"))
+		}, "random", lbl(edge, "random/edge-attempt"), lbl(dup, "random/duplicate"), lbl(ooo, "random/out-of-order-success"), lbl(rereg, "random/re-registration"), lbl(nS > 1, "random/two-senders"), lbl(pushFirst, "random/push-before-store"), lbl(sameDevice, "random/same-sender-device-on-two-groups"))
 	})
 }
